@@ -34,6 +34,8 @@ var c1witnesses = []c1witness{
 		"m3: (1 | (*2 | 3)) & (2 | 3)\n", "m3: (2 | 3) & (1 | (*2 | 3))\n"},
 	{"disjunct-selection-under-pattern-constraint-with-reference",
 		"#A: {...}\ny: {c: {c: {}} | {c!: #A}, [=~\"c$\"]: #A}\n", "#A: {...} & {...}\ny: {c: {c: {}} | {c!: #A}, [=~\"c$\"]: #A}\n"},
+	{"incomplete-placement-through-reference-into-struct-with-pending-comprehension",
+		"k1: _\n#A: {if k1 {}}\ny: {a: _}\ny: #A\nz: y.a\n", "k1: _\nz: y.a\ny: #A\n#A: {if k1 {}}\ny: {a: _}\n"},
 	{"top-unified-with-struct-holding-failing-comprehension",
 		"x: {if false {}}\n", "x: _ & {if false {}}\n"},
 	{"top-unified-with-struct-holding-failing-comprehension",
